@@ -124,7 +124,7 @@ def prop_status(pid, thorough=False):
         if blk.startswith("Closed"):
             axioms[name] = []
         else:
-            axioms[name] = sorted(set(re.findall(r"^([A-Za-z_][\w.']*)\s*:", blk, re.M)))
+            axioms[name] = sorted(set(re.findall(r"^([A-Za-z_][\w.']*)(?:\s*:|[ \t]*$)", blk, re.M)) - {"Axioms"})
     ok = (rc == 0)
     res = dict(obligations=len(names), discharged=len(names) if ok else 0, theorems=names,
                axioms=axioms, ok=ok, log=out[-3000:],
